@@ -73,6 +73,9 @@ impl<'a> Run<'a> {
             let roles: &[Role] = if self.oracle.has_w { &ROLES } else { &[Role::P, Role::C] };
             for r in roles { if obs.publ[r.i()] != self.oracle.pub_idx(*r) { self.fail("oracle", vec!["C14", "C04"], line, format!("published index of {:?}: expected {}, got {}", r, self.oracle.pub_idx(*r), obs.publ[r.i()])); } }
         }
+        // life cycle through the async wrappers: liveness flags and the release of the storage (C07; the wrappers must not change it: C13)
+        if !self.oracle.buffer_gone() && obs.fl != self.oracle.flags { self.fail("oracle", vec!["C07", "C13", "C14"], line, format!("liveness flags: expected {:?}, got {:?}", self.oracle.flags, obs.fl)); }
+        if obs.freed != self.oracle.freed { self.fail("oracle", vec!["C07", "C13", "C14"], line, format!("buffer releases: expected {}, observed {}", self.oracle.freed, obs.freed)); }
         if self.owned && obs.drops != exp_drops { self.fail("oracle", vec!["C14", "C08"], line, format!("destructor runs: expected {:?}, observed {:?}", exp_drops, obs.drops)); }
         if obs.drop_zero { self.fail("oracle", vec!["C09"], line, "a destructor ran on an empty slot".into()); }
         if let Some(m) = model_line { if m != mine { self.fail("model", vec![], line, format!("implementation: {mine}\n        model: {m}")); } }
@@ -201,6 +204,14 @@ macro_rules! heap_case { ($Buf:ident, $T:ty, $c:expr, $vals:expr, $run:expr, $sr
     let buf: $Buf<$T> = $Buf::<$T>::from($vals.iter().map(|v| <$T as mrb_harness::tok::Item>::make(*v)).collect::<Vec<$T>>());
     if $c.has_w { let (p, w, c) = buf.split_mut(); session::<_, $T, true>(p, Some(w), c, $run, $src, $stop); } else { let (p, c) = buf.split(); session::<_, $T, false>(p, None, c, $run, $src, $stop); }
 }}; }
+// concurrent heap buffers split through the crate's own `split_async` / `split_mut_async`, the iterators taken apart with `into_sync`
+// (and wrapped again by the session): the async constructors and converters are part of what is compared
+macro_rules! heap_case_async { ($T:ty, $c:expr, $vals:expr, $run:expr, $src:expr, $stop:expr) => {{
+    use mutringbuf::iterators::async_iterators::AsyncIterator;
+    let buf: ConcurrentHeapRB<$T> = ConcurrentHeapRB::<$T>::from($vals.iter().map(|v| <$T as mrb_harness::tok::Item>::make(*v)).collect::<Vec<$T>>());
+    if $c.has_w { let (p, w, c) = buf.split_mut_async(); session::<_, $T, true>(p.into_sync(), Some(w.into_sync()), c.into_sync(), $run, $src, $stop); }
+    else { let (p, c) = buf.split_async(); session::<_, $T, false>(p.into_sync(), None, c.into_sync(), $run, $src, $stop); }
+}}; }
 macro_rules! stack_case { ($Buf:ident, $T:ty, $N:literal, $c:expr, $vals:expr, $run:expr, $src:expr, $stop:expr) => {{
     let mut buf: $Buf<$T, $N> = $Buf::<$T, $N>::from(std::array::from_fn::<$T, $N, _>(|i| <$T as mrb_harness::tok::Item>::make($vals[i])));
     let bp: *mut $Buf<$T, $N> = &mut buf;
@@ -210,6 +221,7 @@ macro_rules! stack_case { ($Buf:ident, $T:ty, $N:literal, $c:expr, $vals:expr, $
 #[cfg(not(feature = "vmem"))]
 macro_rules! uni_case { ($T:ty, $c:expr, $vals:expr, $run:expr, $src:expr, $stop:expr) => {
     match ($c.conc, $c.heap, $c.len) {
+        (true, true, l) if l % 2 == 1 => heap_case_async!($T, $c, $vals, $run, $src, $stop),
         (true, true, _) => heap_case!(ConcurrentHeapRB, $T, $c, $vals, $run, $src, $stop),
         (false, true, _) => heap_case!(LocalHeapRB, $T, $c, $vals, $run, $src, $stop),
         (true, false, 2) => stack_case!(ConcurrentStackRB, $T, 2, $c, $vals, $run, $src, $stop), (true, false, 3) => stack_case!(ConcurrentStackRB, $T, 3, $c, $vals, $run, $src, $stop),
